@@ -31,10 +31,12 @@ def scenarios(thorough=False):
             # by the limit, States.Timeout, and the exact classification of those findings needs to see it stuck)
             # (the large generated machines kept in corpus/engine.json for C02 / C11 are left out too: several of the open
             # findings combine in them in ways neither the model's skeletons nor the fallback classifier cover)
-            # (definitions the engine cannot interpret are C18's; the witnesses of the fan-out protocol findings are left out
-            # as well: their plans answer the n-th request, and a fan-out re-launched from its held event after a crash
-            # (the open findings C04-F2 / F4: join state is volatile) repeats requests, which shifts which attempt of the
-            # retried fan-out fails — like the gen* machines, a combination neither the model nor the classifiers cover)
+            # (definitions the engine cannot interpret are C18's: the reference semantics has no visits for them.  The witnesses of
+            # the fan-out protocol findings are left out as well: with the workers' plans indexed by attempt the crash model follows
+            # most of them, but not the three-level ones (`nested-pending-*-d3-*`: the model's tidy-up walks the attempts in another
+            # order than the engine, and a crash inside that handler leaves the two out of step), and with them the thorough tier
+            # does not stay under ten minutes; the quick scenarios `par-retry-vs-late-*` / `par-catch-vs-pending-sibling` and the
+            # corpus' `handled-fail-*` / `nested-*` machines keep handled fan-out failures in the check)
             if sc.extra.get("fail_payload") is None and "TimeoutSeconds" not in sc.machine and not sc.name.startswith(("oversize", "gen")) \
                     and sc.sm_type == "STANDARD" and not sc.extra.get("illformed") and not sc.extra.get("finding"):
                 sc.name = "corpus:" + sc.name
@@ -522,6 +524,10 @@ def run(chk):
                 mine = cm.legacy_view(skel)
                 if ref_sk is None or mine is None:
                     chk.dist("skeleton.reference_semantics_has_no_word")
+                elif '"X"' in cj(ref_sk) or '"X"' in cj(mine):
+                    # (a fan-out attempt failed: the engine cuts the siblings short where the reference semantics runs every
+                    # branch to its end — C06's subject; the visits are not comparable one to one)
+                    chk.dist("skeleton.reference_semantics_not_compared_fanout_failed")
                 elif cj(ref_sk) == cj(mine):
                     chk.dist("skeleton.reference_semantics_agrees")
                 else:
